@@ -401,11 +401,36 @@ fn tk_of_bison(name: &str, r: &mut Rng) -> TK {
 
 pub fn random_sentence(g: &Grammar, r: &mut Rng, budget: usize) -> Sentence {
     let mut s = Sentence { kinds: vec![], binder: vec![] };
-    gen_nt(g, g.start, budget as i64, r, &mut s);
+    gen_nt(g, g.start, budget as i64, r, &mut s, &mut 0);
     s
 }
 
-fn gen_nt(g: &Grammar, nt: usize, budget: i64, r: &mut Rng, out: &mut Sentence) {
+// A "near sentence": derived like a sentence, except that at one random point a different
+// precedence level (or `term`) is expanded in place of the nonterminal the grammar asks for.
+// The result may or may not be a sentence; the chart parser decides. Aimed at parse functions
+// that call the sub-parser of the wrong level.
+pub fn confused_sentence(g: &Grammar, r: &mut Rng, budget: usize) -> Sentence {
+    let mut s = Sentence { kinds: vec![], binder: vec![] };
+    let mut countdown = 1 + r.below(12) as i64;
+    gen_nt(g, g.start, budget as i64, r, &mut s, &mut countdown);
+    s
+}
+
+const LEVELS: [&str; 9] = ["term", "jumbo_term", "giant_term", "huge_term", "large_term", "medium_term", "small_term", "atom", "let"];
+
+fn gen_nt(g: &Grammar, nt: usize, budget: i64, r: &mut Rng, out: &mut Sentence, confuse: &mut i64) {
+    let mut nt = nt;
+    if *confuse > 0 && LEVELS.contains(&g.names[nt].as_str()) {
+        *confuse -= 1;
+        if *confuse == 0 {
+            // swap in another level exactly once
+            let other = LEVELS[r.usize(LEVELS.len())];
+            if let Some(o) = g.nt(other) {
+                nt = o;
+            }
+            *confuse = -1;
+        }
+    }
     let alts = &g.alts[nt];
     // minimal length of each alternative
     let lens: Vec<usize> = alts
@@ -433,7 +458,7 @@ fn gen_nt(g: &Grammar, nt: usize, budget: i64, r: &mut Rng, out: &mut Sentence) 
             }
             Sym::N(m) => {
                 let share = g.min_len[*m] as i64 + if nsyms == 1 { spare } else { r.range(0, spare.max(0)) * 2 / nsyms.max(1) };
-                gen_nt(g, *m, share, r, out);
+                gen_nt(g, *m, share, r, out, confuse);
             }
         }
     }
